@@ -27,7 +27,7 @@ theorem live_set_none (hs : List (Option Nat)) (h x : Nat) (hx : hs[h]? = some (
 
 theorem inv_init : Inv init := by intro x; simp [init, occ, live]
 
-theorem inv_step (s s' : PState) (e : PEv) (hf : ∀ h, e ≠ .closeKeep h) (hi : Inv s) (h : step s e = some s') : Inv s' := by
+theorem inv_step (s s' : PState) (e : PEv) (hf : faithfulEv e = true) (hi : Inv s) (h : step s e = some s') : Inv s' := by
   cases e with
   | acquire sel =>
     cases sel with
@@ -89,7 +89,17 @@ theorem inv_step (s s' : PState) (e : PEv) (hf : ∀ h, e ≠ .closeKeep h) (hi 
           constructor
           · omega
           · intro hp; exact hx.2 (by omega)
-  | closeKeep hd => exact absurd rfl (hf hd)
+  | closeKeep hd => simp [faithfulEv] at hf
+  | putKeep hd => simp [faithfulEv] at hf
+  | touchDangling x => simp [faithfulEv] at hf
+  | touch hd =>
+    simp only [step] at h
+    cases hg : s.handles[hd]? with
+    | none => simp [hg] at h
+    | some o =>
+      cases o with
+      | none => simp [hg] at h
+      | some y => simp only [hg, Option.some.injEq] at h; subst h; exact hi
   | drop y =>
     simp only [step] at h
     split at h
@@ -103,7 +113,30 @@ theorem inv_step (s s' : PState) (e : PEv) (hf : ∀ h, e ≠ .closeKeep h) (hi 
       · intro hp; exact hx.2 (by omega)
     · simp at h
 
-theorem inv_run (es : List PEv) (s0 s : PState) (hf : faithful es = true) (h0 : Inv s0) (hr : run s0 es = some s) : Inv s := by
+theorem dangling_step (s s' : PState) (e : PEv) (hf : faithfulEv e = true) (hd : s.dangling = [])
+    (h : step s e = some s') : s'.dangling = [] := by
+  cases e with
+  | acquire sel =>
+    cases sel with
+    | none => simp only [step, Option.some.injEq] at h; subst h; exact hd
+    | some y => simp only [step] at h; split at h <;> simp at h; subst h; exact hd
+  | close x =>
+    simp only [step] at h
+    cases hg : s.handles[x]? with
+    | none => simp [hg] at h
+    | some o => cases o <;> (simp only [hg, Option.some.injEq] at h; subst h; exact hd)
+  | drop y => simp only [step] at h; split at h <;> simp at h; subst h; exact hd
+  | touch x =>
+    simp only [step] at h
+    cases hg : s.handles[x]? with
+    | none => simp [hg] at h
+    | some o => cases o <;> simp [hg] at h; subst h; exact hd
+  | closeKeep x => simp [faithfulEv] at hf
+  | putKeep x => simp [faithfulEv] at hf
+  | touchDangling x => simp [faithfulEv] at hf
+
+theorem inv_run (es : List PEv) (s0 s : PState) (hf : faithful es = true) (h0 : Inv s0 ∧ s0.dangling = [])
+    (hr : run s0 es = some s) : Inv s ∧ s.dangling = [] := by
   induction es generalizing s0 with
   | nil => simp [run] at hr; subst hr; exact h0
   | cons e es ih =>
@@ -112,10 +145,7 @@ theorem inv_run (es : List PEv) (s0 s : PState) (hf : faithful es = true) (h0 : 
     | none => simp [hs] at hr
     | some s1 =>
       simp only [hs] at hr
-      have hfe : ∀ h, e ≠ .closeKeep h := by
-        intro h he; subst he; simp [faithful] at hf
-      have hfs : faithful es = true := by
-        cases e <;> simp_all [faithful]
-      exact ih s1 hfs (inv_step s0 s1 e hfe h0 hs) hr
+      simp only [faithful, List.all_cons, Bool.and_eq_true] at hf
+      exact ih s1 hf.2 ⟨inv_step s0 s1 e hf.1 h0.1 hs, dangling_step s0 s1 e hf.1 h0.2 hs⟩ hr
 
 end KV.Model.Pool
